@@ -19,4 +19,4 @@ def run(ctx):
     if not q:
         plans.append({"world": "happy", "sim": 20, "steps": 10, "avoid": True, "cap": 3000, "seeds": 2})
     design = [("Mirror_c05.cfg", {"MaxSteps": 3 if q else 4}, "C05_Inert (action property) over the adversarial vote universe")]
-    return mirrorcheck.run(ctx, {"C05"}, plans, design_cfgs=design)
+    return mirrorcheck.run(ctx, {"C05"}, plans, design_cfgs=design, suite="mirror")
